@@ -128,7 +128,9 @@ class Repo:
             from .inline import inline_module
             from .tables import KNOWN_FUNCS
             from . import alpha
-            nren = alpha.align(tree, fn[:-3])                       # locals renamed back to the reference names (raw shapes)
+            refp = os.path.join(alpha.REF_DIR, fn)
+            same_as_ref = os.path.isfile(refp) and open(refp, encoding="utf-8").read() == src
+            nren = 0 if same_as_ref else alpha.align(tree, fn[:-3])   # locals renamed back to the reference names (raw shapes)
             for k_, v_ in normalise(tree, fn[:-3]).items():
                 self.desugared[k_] = self.desugared.get(k_, 0) + v_
             before = dict(self.desugared)
@@ -136,7 +138,8 @@ class Repo:
             if self.desugared != before:
                 for k_, v_ in normalise(tree, fn[:-3]).items():
                     self.desugared[k_] = self.desugared.get(k_, 0) + v_
-            nren += alpha.align(tree, fn[:-3], _normalised_reference(fn[:-3]))   # ... and once more on the normalised shapes
+            if not same_as_ref:
+                nren += alpha.align(tree, fn[:-3], _normalised_reference(fn[:-3]))   # ... and once more on the normalised shapes
             self.desugared["T0 locals renamed to reference names"] = self.desugared.get("T0 locals renamed to reference names", 0) + nren
             m = Module(fn[:-3], path, f"{PKG}/{fn}", tree, src)
             self.modules[m.name] = m
